@@ -121,7 +121,11 @@ class Prop:
 
 
 def proto_variants(tables):
-    return {n: v[2] for n, v in tables.proto.items() if v[2] != "-"} if tables else {}
+    """protocol number -> name a record must carry: the frozen IANA list (tools/iana.py)"""
+    import iana
+    d = {n: v[2] for n, v in tables.proto.items() if v[2] != "-"} if tables else {}
+    d.update(iana.PROTO)
+    return d
 
 
 # ---------------------------------------------------------------- C03
@@ -525,6 +529,7 @@ def cache_case(rng, tables):
     exs = [gen.Exporter(rng, tables, rng.random() < 0.7) for _ in range(nparsers)]
     for ex in exs:
         ex.ids = [256, 257, 300]           # few ids: redefinitions and cross-protocol clashes are common
+        ex.kind_reuse = rng.random() < 0.5   # and an id redefined from template to options template or back
     ops = []
     for k in range(nparsers):
         ops.append("P %d" % k)
@@ -569,7 +574,7 @@ class C06(Prop):
                 # fully conformant streams over 2-3 parsers sharing template ids with different
                 # definitions: every packet is re-decoded by the reference decoder with the
                 # template its own parser received last
-                c = gen.conformant_stream(rng, tables, parsers=rng.choice([2, 3]), few_ids=True)
+                c = gen.conformant_stream(rng, tables, parsers=rng.choice([2, 3]), few_ids=True, kind_reuse=rng.random() < 0.6)
                 c.gen = "conformant-shared-ids"
                 out.append(c)
             else:
@@ -579,7 +584,7 @@ class C06(Prop):
     def oracle(self, case, obs, crash, tables):
         # the reference decode detects data decoded under the wrong template; deviations that are
         # C04's / C05's own finding classes are theirs to report
-        ref = [(c, m) for c, m in oracle.c04(case, obs, crash, tables) + oracle.c05(case, obs, crash, tables) if c is None]
+        ref = [(c, m) for c, m in oracle.c04(case, obs, crash, tables) + oracle.c05(case, obs, crash, tables) if c is None or c.startswith("K_C06")]
         return oracle.c06(case, obs, crash) + ref
 
     def nontrivial(self, case, obs):
@@ -697,7 +702,7 @@ class C04(Prop):
         return [gen.conformant_stream(rng, tables, versions=(9, 9, 9, 5), parsers=rng.choice([1, 1, 2])) for _ in range(n)]
 
     def oracle(self, case, obs, crash, tables):
-        return oracle.c04(case, obs, crash, tables)
+        return [(c, m) for c, m in oracle.c04(case, obs, crash, tables) if not (c or "").startswith("K_C06")]
 
     def nontrivial(self, case, obs):
         for o in obs:
@@ -732,7 +737,7 @@ class C05(C04):
         return [multi_template_case(rng, tables)] + [gen.conformant_stream(rng, tables, versions=(10, 10, 10, 7), parsers=rng.choice([1, 1, 2])) for _ in range(n)]
 
     def oracle(self, case, obs, crash, tables):
-        return oracle.c05(case, obs, crash, tables)
+        return [(c, m) for c, m in oracle.c05(case, obs, crash, tables) if not (c or "").startswith("K_C06")]
 
 
 LOSSLESS_V9 = ["UnsignedDataNumber", "Ip4Addr", "Ip6Addr", "Vec", "ProtocolType"]
